@@ -698,6 +698,8 @@ import (
 	"encoding/json"
 	"fmt"
 	"os"
+	"runtime"
+	"strings"
 )
 
 type vCexVal struct {
@@ -770,6 +772,23 @@ func vSymbolic() bool             { return false }
 func vSplit(c bool)               {}
 func vStats(name string)          {}
 func vMapOrder(run int)           {}
+func vRunTask(j int) bool         { return false }
+func vPendingTasks() int          { return 0 }
+
+var vMainG = vGoid()
+
+func vGoid() string {
+	b := make([]byte, 40)
+	b = b[:runtime.Stack(b, false)]
+	f := strings.Fields(string(b))
+	if len(f) > 1 {
+		return f[1]
+	}
+	return ""
+}
+
+// vInTask: natively a forked call runs on another goroutine than the harness
+func vInTask() bool { return vGoid() != vMainG }
 func vParam(name string, def int) int {
 	vLoad()
 	if v, ok := vState.cex.Params[name]; ok {
